@@ -60,8 +60,10 @@ func parseClusterNodes(data string) (map[string]*instance, error) {
 		}
 
 		// attach slots to master node
+		// NOTE: a master may own no slots at all, e.g. a node which has just
+		// joined the cluster or a failed master whose slots were taken over.
 		if len(fields) < 9 {
-			return nil, errInvalidClusterNodes
+			continue
 		}
 		slots, err := parseClusterNodesSlot(fields[8:])
 		if err != nil {
